@@ -102,7 +102,7 @@ impl<Tag: Default> oxidd_dump::ParseTagged<Tag> for F64 {
             | "+infinity" | "+Inf" | "+Infinity" | "+INF" | "+INFINITY" | "PlusInf" => {
                 Self(f64::INFINITY)
             }
-            _ => Self(f64::from_str(s).ok()?),
+            _ => Self::from(f64::from_str(s).ok()?),
         };
         Some((val, Tag::default()))
     }
